@@ -61,7 +61,7 @@ struct Form {
     /// also evaluated as a `const` item (the const evaluator of semantic analysis)
     const_twin: bool,
     /// items the expression needs (use declarations, helper impls)
-    prelude: &'static str,
+    prelude: String,
     /// operand domain of `b` when it is not the domain of its type
     dom_b: &'static str,
 }
@@ -69,7 +69,7 @@ struct Form {
 impl Form {
     fn of_op(op: &COp, t: &Ty) -> Form {
         let r = if op.ret == "T" { t.name } else { op.ret };
-        Form { name: op.name.into(), expr: op.expr.into(), ta: t.name.into(), tb: t.name.into(), ret: r.into(), unary: op.unary, const_twin: true, prelude: "", dom_b: "" }
+        Form { name: op.name.into(), expr: op.expr.into(), ta: t.name.into(), tb: t.name.into(), ret: r.into(), unary: op.unary, const_twin: true, prelude: String::new(), dom_b: "" }
     }
 }
 
@@ -209,11 +209,28 @@ fn check_batch(ctx: &mut Ctx, dbs: &mut Dbs, f: &Form, shape: &str, insts: &[Ins
     // pass 2: without the failing consts; must compile
     let skip: BTreeSet<usize> = failed.keys().copied().collect();
     let (text2, _) = module(f, shape, insts, &skip);
-    let prog = match dbs.compile(&cfg, &text2) {
+    let prog = match guarded(|| dbs.compile(&cfg, &text2)).unwrap_or_else(|(loc, msg)| {
+        dbs.forget(&cfg);
+        Err(format!("panic at {loc}: {msg}"))
+    }) {
         Ok(p) => p,
         Err(e) => {
-            ctx.count("batches_not_compiling_after_removal", 1);
-            ctx.note(format!("{}::{} {shape}: {}", f.ta, f.name, e.chars().take(200).collect::<String>()));
+            // error-free with the failing consts removed: if the build without const folding compiles, the
+            // folder turned a program with a run-time meaning into one that has none
+            let without = guarded(|| dbs.compile(&nofold, &text2)).unwrap_or_else(|_| {
+                dbs.forget(&nofold);
+                Err("panic".into())
+            });
+            if without.is_ok() {
+                ctx.violation(
+                    format!("build-fails-only-with-folding:{}", f.name),
+                    format!("the module compiles with skip_const_folding but not with const folding: {}", e.chars().take(300).collect::<String>()),
+                    json!({"type": f.ta, "op": f.name, "shape": shape, "source": text2}),
+                );
+            } else {
+                ctx.count("batches_not_compiling_after_removal", 1);
+                ctx.note(format!("{}::{} {shape}: {}", f.ta, f.name, e.chars().take(200).collect::<String>()));
+            }
             return;
         }
     };
@@ -335,6 +352,11 @@ fn domain(name: &str, tier: Tier, exhaustive: bool) -> Vec<BigInt> {
                 }
             }
             v.extend([BigInt::from(0), BigInt::from(2), BigInt::from(3), (&p - 1) / 2, (&p + 1) / 2, &p - 2]);
+            // the storage address bound 2^251 - 256
+            let bound: BigInt = (BigInt::from(1) << 251) - BigInt::from(256);
+            for d in [-1i32, 0, 1, 255] {
+                v.push(bound.clone() + BigInt::from(d));
+            }
             let mut v: Vec<BigInt> = v.into_iter().map(|x| ((x % &p) + &p) % &p).collect();
             v.sort();
             v.dedup();
@@ -356,7 +378,7 @@ const WIDE: &[(&str, &str)] = &[("u8", "u16"), ("u16", "u32"), ("u32", "u64"), (
 fn folder_forms(types: &[&Ty], tier: Tier) -> Vec<Form> {
     let mut v = vec![];
     let mut add = |name: String, ta: &str, tb: &str, ret: String, e: String, unary: bool| {
-        v.push(Form { name, expr: e, ta: ta.into(), tb: tb.into(), ret, unary, const_twin: false, prelude: FOLD_PRELUDE, dom_b: "" });
+        v.push(Form { name, expr: e, ta: ta.into(), tb: tb.into(), ret, unary, const_twin: false, prelude: FOLD_PRELUDE.into(), dom_b: "" });
     };
     for t in types {
         let n = t.name;
@@ -383,7 +405,15 @@ fn folder_forms(types: &[&Ty], tier: Tier) -> Vec<Form> {
         add("array_empty_pop_front".into(), n, n, n.into(), format!("{{ let mut arr: Array<{n}> = array![]; match arr.pop_front() {{ Some(v) => v, None => $a }} }}"), true);
         add("span_empty_pop".into(), n, n, n.into(), format!("{{ let mut s: Span<{n}> = array![].span(); match s.pop_front() {{ Some(v) => *v, None => match s.pop_back() {{ Some(v) => *v, None => $a }} }} }}"), true);
         add("span_exhaust".into(), n, n, n.into(), "{ let mut s = array![$a, $b].span(); let _ = s.pop_front(); let _ = s.pop_back(); match s.pop_front() { Some(v) => *v, None => match s.pop_back() { Some(v) => *v, None => 55 } } }".into(), false);
+        add("array_empty_len".into(), n, n, n.into(), format!("{{ let arr: Array<{n}> = array![]; if arr.len() == 0 {{ $a }} else {{ 0 }} }}"), true);
         add("array_get_empty".into(), n, n, n.into(), format!("{{ let arr: Array<{n}> = array![]; match arr.get(0) {{ Some(v) => *v.unbox(), None => $a }} }}"), true);
+        add("panic_felt".into(), n, n, n.into(), "{ if $a < $b { core::panic_with_felt252('less') } $a }".into(), false);
+        add("panic_short".into(), n, n, n.into(), "{ if $a < $b { panic!(\"abc\") } $a }".into(), false);
+        add("panic_31".into(), n, n, n.into(), "{ if $a < $b { panic!(\"0123456789012345678901234567890\") } $a }".into(), false);
+        add("panic_long".into(), n, n, n.into(), "{ if $a == $b { panic!(\"0123456789012345678901234567890123456789012345678901234567890123456789\") } $a }".into(), false);
+        add("assert_fmt".into(), n, n, n.into(), "{ assert!($a != $b, \"equal {} {}\", $a, $b); $b }".into(), false);
+        add("call_helper".into(), n, n, n.into(), "hp($a, $b)".into(), false);
+        add("call_rec".into(), n, n, n.into(), "rec($a, 3) / 2 + hp($b, $a) / 2".into(), false);
         add("known_enum".into(), n, n, n.into(), "{ let o = Option::Some($a); match o { Some(x) => x, None => $b } }".into(), false);
         add("known_struct".into(), n, n, n.into(), "{ let p = P { x: $a, y: $b }; let P { x: _, y } = p; y }".into(), false);
         add("box".into(), n, n, n.into(), "BoxTrait::new($a).unbox()".into(), true);
@@ -405,6 +435,7 @@ fn folder_forms(types: &[&Ty], tier: Tier) -> Vec<Form> {
     for (op, e) in [("u256_add", "u256 { low: $a, high: $b } + u256 { low: $b, high: $a }"), ("u256_sub", "u256 { low: $a, high: $b } - u256 { low: $b, high: $a }"), ("u256_mul", "u256 { low: $a, high: 0 } * u256 { low: $b, high: 1 }"), ("u256_wide", "u256 { low: $a, high: 0 } * u256 { low: $b, high: 0 }")] {
         add(op.into(), "u128", "u128", "u256".into(), e.into(), false);
     }
+    add("storage_base_address".into(), "felt252", "felt252", "felt252".into(), "starknet::storage_access::storage_address_from_base(starknet::storage_access::storage_base_address_from_felt252($a)).into()".into(), true);
     add("bounded_add".into(), "u8", "i8", "felt252".into(), "bounded_int::add($a, $b).into()".into(), false);
     add("bounded_sub".into(), "u8", "i8", "felt252".into(), "bounded_int::sub($a, $b).into()".into(), false);
     add("bounded_mul".into(), "u8", "i8", "felt252".into(), "bounded_int::mul($a, $b).into()".into(), false);
@@ -427,6 +458,12 @@ fn folder_forms(types: &[&Ty], tier: Tier) -> Vec<Form> {
     for f in &mut v {
         if f.name == "array_at" {
             f.dom_b = "idx";
+        }
+        if f.name.starts_with("call_") {
+            let n = &f.ta;
+            f.prelude.push_str(&format!(
+                "#[inline(never)] fn hp(x: {n}, y: {n}) -> {n} {{ if x < y {{ x }} else {{ y / 2 + x / 2 }} }}\nfn rec(x: {n}, n: u8) -> {n} {{ if n == 0 {{ x }} else {{ rec(x / 2 + 1, n - 1) }} }}\n"
+            ));
         }
     }
     v
@@ -479,7 +516,9 @@ fn run_all(ctx: &mut Ctx) {
             }
         }
     }
-    for f in folder_forms(&types, tier) {
+    // quick: the folder forms over u8, i8 and u128 (the const-evaluator forms above keep all five types)
+    let folder_types: Vec<&Ty> = if tier == Tier::Quick { types.iter().copied().filter(|t| ["u8", "i8", "u128"].contains(&t.name)).collect() } else { types.clone() };
+    for f in folder_forms(&folder_types, tier) {
         let exhaustive = tier == Tier::Thorough
             && ty(&f.ta).is_some_and(|t| t.bits == 8)
             && (f.unary || ["overflowing_add", "overflowing_sub", "wrapping_mul", "saturating_sub", "checked_add"].contains(&f.name.as_str()));
@@ -507,11 +546,11 @@ fn small_boundary(t: &Ty) -> Vec<BigInt> {
 pub static C07: CheckDef = CheckDef {
     id: "C07",
     level: "exploration",
-    rule: "Const-evaluable expression alphabet over integer types (quick: u8,i8,u32,u128,i128; thorough: all ten): + - * / % & | ^ unary- < <= == != , a mixed expression, short-circuit && / || with a dividing right operand, into felt252; each reaching the evaluator through 6 shapes (direct const, via const struct member, via const fn, via nested const fn, via match on a tuple, via a block with lets), consts referring to consts. Operands: the full cross product of {MIN,MIN+1,-1,0,1,2,3,MAX-1,MAX} (8-bit types and thorough: the C06 boundary sets incl. +-2^k+-1, and ALL 65 536 pairs for 8-bit + - * / % neg). For each instance three twins in one crate: `const C: R = e[A,B]; fn k()->R{C}`, `fn fold()->R{ let a=A; let b=B; e[a,b] }` compiled with const folding on AND with skip_const_folding, `fn rt(a,b)->R{ e[a,b] }` run with the same operands. Oracle: the const item carries an evaluation-failure diagnostic (E2128/E2130/E2131/E2008) iff rt panics; otherwise k() == rt(A,B); both fold twins == rt (value or panic data). E2127 (unsupported in const context) is counted, not judged. distinct_nontrivial = distinct (type, op, shape, operands).",
+    rule: "Const-evaluable expression alphabet over integer types (quick: u8,i8,u32,u128,i128; thorough: all ten): + - * / % & | ^ unary- < <= == != , a mixed expression, short-circuit && / || with a dividing right operand, into felt252; each reaching the evaluator through 6 shapes (direct const, via const struct member, via const fn, via nested const fn, via match on a tuple, via a block with lets), consts referring to consts. Operands: the full cross product of {MIN,MIN+1,-1,0,1,2,3,MAX-1,MAX} (8-bit types and thorough: the C06 boundary sets incl. +-2^k+-1, and ALL 65 536 pairs for 8-bit + - * / % neg). For each instance three twins in one crate: `const C: R = e[A,B]; fn k()->R{C}`, `fn fold()->R{ let a=A; let b=B; e[a,b] }` compiled with const folding on AND with skip_const_folding, `fn rt(a,b)->R{ e[a,b] }` run with the same operands. Oracle: the const item carries an evaluation-failure diagnostic (E2128/E2130/E2131/E2008) iff rt panics; otherwise k() == rt(A,B); both fold twins == rt (value or panic data). E2127 (unsupported in const context) is counted, not judged. For shape `direct` two more twins with only the left / only the right operand literal (identity and absorbing-element rewrites of the folder), and rt is also run in the build without folding. (b) Folder forms (no const item; quick: over u8, i8, u128): checked_/wrapping_/overflowing_/saturating_ add sub mul, wide_mul, try_into between every ordered pair of the integer types and from felt252, NonZero conversion, is_zero, felt252 + - * felt252_div == 0 match, u256 + - *, bounded_int add/sub/mul (u8 x i8), div_rem, trim_min/trim_max/constrain<0>, arrays built from the operands (len, at with an opaque index in {0,1,2,3,MAX}, span pop_front/pop_back to exhaustion, empty array pop/get/len), known Option / struct / Box / Nullable / snapshot, match on the value, equality chains, panic_with_felt252, panic! with 3-, 31-, 70-byte messages, assert! with formatted arguments, calls of a never-inlined and of a recursive helper with literal arguments, storage_base_address_from_felt252 (felt252 domain incl. the address bound 2^251-256 +-1); thorough: ALL 256 / 65 536 operands for the unary forms and overflowing_add/sub, wrapping_mul, saturating_sub, checked_add on 8-bit types. Same twins and oracle; a module that compiles with skip_const_folding but not with folding is a violation. distinct_nontrivial = distinct (type, op, shape, operands).",
     assumptions: &["diagnostics are attributed to const items by line number in the generated module", "rt runs under the default configuration with ample gas"],
     run: run_all,
     stack_mb: 16,
     item_timeout_s: 300,
-    wall_cap_s: (55, 1500),
+    wall_cap_s: (55, 3000),
     shards: 0,
 };
